@@ -53,7 +53,7 @@ try:
         cls = [l for l in r.stdout.splitlines() if l.startswith("violation class:")]
         res[tier] = {"rc": r.returncode, "class": cls[0][len("violation class: "):] if cls else None, "wall_s": round(time.time() - t0, 1),
                      "message": "\n".join(r.stdout.splitlines()[1:6])[:1200]}
-        if r.returncode != 0:
+        if r.returncode != 0 or os.environ.get("SKIP_THOROUGH"):
             break
     meta["check"] = res
     dst = os.path.join(VERIF, "seeded", sid)
